@@ -337,7 +337,7 @@ type c20Spec struct {
 	DataRight  bool // marshal: expected Data equals the marshaler's output
 	ValueRight bool // unmarshal: expected Value equals what the unmarshaler sets for behaviour 0
 	ErrKind    int  // 0 none, 1 AnyError, 2 Error(exact), 3 Error(other), 4 prefix hit, 5 prefix miss, 6 suffix hit, 7 suffix miss, 8 match hit, 9 match miss, 10 invalid pattern, 11 hand-written, content with anything
-	Before     int  // 0 nil, 1 pass, 2 returns error, 3 panics
+	Before     int  // 0 nil, 1 pass, 2 returns error, 3 panics, 4 panics with an evil value, 5/6 rewrites the case, 7 run-time error, 8 supplies the data
 	After      int
 	NilValue   bool // T = *SP only: Value is a nil pointer (unmarshal-only cases)
 	ZeroValue  bool // unmarshal-only cases of non-pointer types: the expected Value is the zero value of T (a nil map, a nil slice, an all-zero struct)
@@ -414,7 +414,7 @@ func c20Hook[C any](kind int, rewrite func(*C)) func(int, *C) error {
 			var e *c20Evil
 			panic(error(e))
 		}
-	case 5, 6:
+	case 5, 6, 8:
 		return func(_ int, c *C) error { rewrite(c); return nil }
 	case 7: // a hook that dies with a run-time error (a nil map written, an empty slice indexed): a panic like any other
 		return func(i int, _ *C) error {
@@ -685,6 +685,16 @@ func c20Invoke[T any](t *c20T, helper int, withHelper bool, specs []c20Spec, mk 
 		}
 		return s
 	}
+	// kind 8: the hook supplies the data (a table whose Data is filled in by its Before hooks): what stands there before
+	// the hook runs belongs to another identity, the Value is right all along
+	initData := func(s c20Spec) string {
+		if s.Before == 8 {
+			t := s
+			t.ID = s.ID + 1
+			return c20ExpectedData(t)
+		}
+		return c20ExpectedData(initial(s))
+	}
 	noAfter := func(k int) int {
 		if k > 3 && k != 7 {
 			return 1
@@ -696,7 +706,7 @@ func c20Invoke[T any](t *c20T, helper int, withHelper bool, specs []c20Spec, mk 
 		cases := make([]test.CaseText[T], len(specs))
 		for i, s := range specs {
 			s := s
-			cases[i] = test.CaseText[T]{Constraint: cons(s), Before: c20Hook(s.Before, func(c *test.CaseText[T]) { c.Data, c.Value = c20ExpectedData(final(s)), mk(final(s)) }), After: c20Hook[test.CaseText[T]](noAfter(s.After), nil), Error: c20ErrFunc(s), Data: c20ExpectedData(initial(s)), Value: mk(initial(s))}
+			cases[i] = test.CaseText[T]{Constraint: cons(s), Before: c20Hook(s.Before, func(c *test.CaseText[T]) { c.Data, c.Value = c20ExpectedData(final(s)), mk(final(s)) }), After: c20Hook[test.CaseText[T]](noAfter(s.After), nil), Error: c20ErrFunc(s), Data: initData(s), Value: mk(initial(s))}
 		}
 		if helper%2 == 0 {
 			test.MarshalText(t, cases)
@@ -704,7 +714,7 @@ func c20Invoke[T any](t *c20T, helper int, withHelper bool, specs []c20Spec, mk 
 			test.UnmarshalText(t, cases, th)
 		}
 		for i, s := range specs {
-			if want := c20ExpectedData(initial(s)); cases[i].Data != want {
+			if want := initData(s); cases[i].Data != want {
 				tableModified = fmt.Sprintf("case %d Data is now %q", i, clipStr(cases[i].Data, 80))
 			}
 		}
@@ -712,7 +722,7 @@ func c20Invoke[T any](t *c20T, helper int, withHelper bool, specs []c20Spec, mk 
 		cases := make([]test.CaseBinary[T], len(specs))
 		for i, s := range specs {
 			s := s
-			cases[i] = test.CaseBinary[T]{Constraint: cons(s), Before: c20Hook(s.Before, func(c *test.CaseBinary[T]) { c.Data, c.Value = []byte(c20ExpectedData(final(s))), mk(final(s)) }), After: c20Hook[test.CaseBinary[T]](noAfter(s.After), nil), Error: c20ErrFunc(s), Data: []byte(c20ExpectedData(initial(s))), Value: mk(initial(s))}
+			cases[i] = test.CaseBinary[T]{Constraint: cons(s), Before: c20Hook(s.Before, func(c *test.CaseBinary[T]) { c.Data, c.Value = []byte(c20ExpectedData(final(s))), mk(final(s)) }), After: c20Hook[test.CaseBinary[T]](noAfter(s.After), nil), Error: c20ErrFunc(s), Data: []byte(initData(s)), Value: mk(initial(s))}
 		}
 		if helper%2 == 0 {
 			test.MarshalBinary(t, cases)
@@ -726,7 +736,7 @@ func c20Invoke[T any](t *c20T, helper int, withHelper bool, specs []c20Spec, mk 
 		cases := make([]test.CaseJSON[T], len(specs))
 		for i, s := range specs {
 			s := s
-			cases[i] = test.CaseJSON[T]{Constraint: cons(s), Before: c20Hook(s.Before, func(c *test.CaseJSON[T]) { c.Data, c.Value = c20ExpectedData(final(s)), mk(final(s)) }), After: c20Hook[test.CaseJSON[T]](noAfter(s.After), nil), Error: c20ErrFunc(s), Data: c20ExpectedData(initial(s)), Value: mk(initial(s))}
+			cases[i] = test.CaseJSON[T]{Constraint: cons(s), Before: c20Hook(s.Before, func(c *test.CaseJSON[T]) { c.Data, c.Value = c20ExpectedData(final(s)), mk(final(s)) }), After: c20Hook[test.CaseJSON[T]](noAfter(s.After), nil), Error: c20ErrFunc(s), Data: initData(s), Value: mk(initial(s))}
 		}
 		if helper%2 == 0 {
 			test.MarshalJSON(t, cases)
@@ -734,7 +744,7 @@ func c20Invoke[T any](t *c20T, helper int, withHelper bool, specs []c20Spec, mk 
 			test.UnmarshalJSON(t, cases, th)
 		}
 		for i, s := range specs {
-			if want := c20ExpectedData(initial(s)); cases[i].Data != want {
+			if want := initData(s); cases[i].Data != want {
 				tableModified = fmt.Sprintf("case %d Data is now %q", i, clipStr(cases[i].Data, 80))
 			}
 		}
@@ -940,7 +950,7 @@ func c20GenSpec(r *rt.Rand, id int) c20Spec {
 		}
 	}
 	if r.Chance(1, 4) {
-		s.Before = r.Intn(8)
+		s.Before = r.Intn(9)
 		if ((s.Before >= 2 && s.Before <= 4) || s.Before == 7) && r.Chance(2, 3) {
 			s.Before = 1
 		}
@@ -1025,6 +1035,9 @@ func runC20(c *rt.Ctx) {
 				if sp.MBeh == 6 || sp.UBeh == 8 {
 					w.ClassN("non-nil-error-holding-nil-pointer", 1)
 				}
+				if sp.Before == 8 {
+					w.ClassN("before-hook-supplies-the-data", 1)
+				}
 				if sp.UBeh == 10 && sp.Constraint != 1 && (typ == 8 || typ == 9) {
 					w.ClassN("empty-non-nil-container-alongside-expected-error", 1)
 				}
@@ -1081,6 +1094,7 @@ func runC20(c *rt.Ctx) {
 	c.Require("loosely-self-comparing-type-with-partial-difference", 50)
 	c.Require("non-nil-error-holding-nil-pointer", 200)
 	c.Require("empty-non-nil-container-alongside-expected-error", 100)
+	c.Require("before-hook-supplies-the-data", 1000)
 	for _, r := range []string{"before hook", "after hook", "missing error", "unmet error predicate", "non-empty result alongside an expected error", "unexpected error", "differing data or value", "type lacks the interface", "errormatch-valid-pattern-nonmatching-nonnil-error"} {
 		c.Require("single-unmet-condition:"+r, 50)
 	}
